@@ -275,6 +275,14 @@ fn doc_line(chars: &[char], toks: &[Token], lints: &[Lint]) -> String {
     format!("{} # {}", nums.join(";"), ls).trim().to_string()
 }
 
+/// the `E` line: EVERY token of the final document (after all passes of Document::parse) + the lints
+fn final_line(chars: &[char], toks: &[Token], lints: &[Lint]) -> String {
+    let all: Vec<String> = toks.iter().map(|t| { let (k, a) = kind_code(&t.kind); format!("{} {} {} {}", t.span.start, t.span.end, k, a) }).collect();
+    let d = doc_line(chars, toks, lints);
+    let ls = d.split('#').nth(1).unwrap_or("").trim().to_string();
+    format!("{} # {}", all.join(";"), ls).trim().to_string()
+}
+
 // ------------------------------------------------------------------------------------------------
 // one case
 // ------------------------------------------------------------------------------------------------
@@ -333,6 +341,9 @@ fn run_case(im: &mut Impl, s: &Spec) -> Outcome {
         Err(m) => {
             if in_model {
                 o.cases.push((format!("D {} | {}", cps_line(&chars), table), "P".into()));
+                if s.lex_case {
+                    o.cases.push((format!("E {} | {}", cps_line(&chars), table), "P".into()));
+                }
             }
             o.fails.push(("panic", format!("Document::new / LintGroup::lint panicked: {m}")));
             return o;
@@ -341,6 +352,14 @@ fn run_case(im: &mut Impl, s: &Spec) -> Outcome {
     if in_model {
         o.cases.push((format!("D {} | {}", cps_line(&chars), table), doc_line(&chars, &toks, &lints)));
         if s.lex_case {
+            // the whole of Document::parse against Model/C17Later.v (every token of the final document)
+            o.cases.push((format!("E {} | {}", cps_line(&chars), table), final_line(&chars, &toks, &lints)));
+            if toks.iter().any(|t| matches!(t.kind, TokenKind::Punctuation(Punctuation::Ellipsis))) {
+                o.counts.push("later:ellipsis_condensed".into());
+            }
+            if toks.iter().any(|t| matches!(t.kind, TokenKind::Word(_)) && t.span.end <= chars.len() && t.span.start < t.span.end && chars[t.span.end - 1] == '.' && t.span.len() >= 3) {
+                o.counts.push("later:latin_or_initialism_condensed".into());
+            }
             let raw = guarded(|| PlainEnglish.parse(&chars));
             let line = match &raw {
                 Ok(ts) => ts.iter().map(|t| { let (k, a) = kind_code(&t.kind); format!("{} {} {} {}", t.span.start, t.span.end, k, a) }).collect::<Vec<_>>().join(";"),
@@ -612,6 +631,7 @@ fn run_multi_case(im: &mut Impl, m: &MultiSpec) -> Outcome {
     };
     let got: Vec<String> = lints.iter().map(|l| format!("{} {} {}", l.span.start, l.span.end, l.suggestions.iter().map(sug_str).collect::<Vec<_>>().join("/"))).collect();
     o.cases.push((case, format!("1 # {}", got.join(";")).trim().to_string()));
+    o.cases.push((format!("E {} | {}", cps(&chars), table), final_line(&chars, &toks, &lints)));
     // search only (no theorem states it for the final document): after the merges the tokens still follow one another
     // without overlap — a suffix word that survives next to its merged number (mutation d9) shows here
     if let Some(w) = toks.windows(2).find(|w| w[0].span.end > w[1].span.start) {
@@ -850,6 +870,24 @@ fn plural_edge(r: &mut Rng) -> String {
     const HEAD: &[&str] = &["a", "A", "x", "Z", "2", "9", "0", "é", "1990", "the 3", " b"];
     const NEXT: &[&str] = &["", " ", ".", ",", "é", "ß", "α", "ж", "世", "٣", "²", "½", "e", "1", "t", "'", "’", "-", "_", "😀", "\u{a0}", "É", "ſ", "ª"];
     format!("{}{}s{}", r.s(HEAD), if r.chance(1, 3) { "'" } else { "" }, r.s(NEXT))
+}
+
+/// texts on which condense_ellipsis / condense_latin fire or nearly fire
+fn later_edge(r: &mut Rng) -> String {
+    const PIECES: &[&str] = &["etc.", "ETC.", "Etc.", "etc", "etc..", "etc...", "vs.", "Vs.", "VS.", "vs", "et al.", "Et Al.", "ET AL.", "et  al.", "et\tal.", "et\nal.",
+        "et\n\nal.", "et \n al.", "et al", "et al..", "et al...", "et. al.", "etal.", "et all.", "ét al.", "et a1.", "e.t.c.", "etc.etc.", "etcetera.", "vs.vs.",
+        "...", "..", ".", "....", ". . .", "…", ". ..", "!..", "..!", "x..y", "i.e.", "e.g.", "N.S.A.", "A.", "I.", "a.b", "it's", "don't", "'..'", "\"...\"", "“etc.”",
+        "2st", "3rd", "21th", "2st...", "3rd..", "1st etc.", "22nd et al.", "cats", "and", "The", "x", "世", "😀"];
+    const GLUE: &[&str] = &[" ", " ", " ", "", ", ", "  ", "\n", "\t", " - ", "(", ") "];
+    let k = 1 + r.below(5) as usize;
+    let mut t = String::new();
+    for i in 0..k {
+        if i > 0 {
+            t.push_str(r.s(GLUE));
+        }
+        t.push_str(r.s(PIECES));
+    }
+    t
 }
 
 fn spec(pre: &str, num: &str, sfx: &str, post: &str, origin: &'static str, lex_case: bool) -> Spec {
@@ -1183,6 +1221,18 @@ fn main() {
         let n = random_n(&mut r);
         let post = format!("{}{}", r.s(&["@x.com", "@", "://", "://x.com/a", ":// x", "@x", "@.com", ":/x"]), r.s(&["", " ", " now."]));
         specs.push(spec(r.s(&["", "to ", "a."]), &n.to_string(), r.s(&CASINGS), &post, "url_email_glued", true));
+    }
+    // (12) the passes after condense_dotted_initialisms (Model/C17Later.v): ellipses, `etc.` / `vs.` / `et al.` in every
+    //      casing and spacing, near-misses, initialisms, quotes, contractions — around ordinals
+    for _ in 0..a.scale(1500, 40000) {
+        let t = later_edge(&mut r);
+        specs.push(spec(&t, "", "", "", "later_passes_edge", true));
+    }
+    for _ in 0..a.scale(300, 6000) {
+        let n = random_n(&mut r);
+        let pre = format!("{}{}", later_edge(&mut r), r.s(&[" ", " ", ", ", "\n", " (", "... ", ".. "]));
+        let post = format!("{}{}", r.s(&["", " ", "...", "..", ". . .", " etc.", " et al.", ", etc.", " vs. ", "... etc.", ".", "'s etc."]), later_edge(&mut r));
+        specs.push(spec(&pre, &n.to_string(), r.s(&CASINGS), &post, "later_passes_around_ordinal", true));
     }
     run_batch(&mut rep, &specs, threads);
     // (11) texts with several ordinals (C17_lint_list): the class, and inside it exactly the promised lints
